@@ -147,13 +147,38 @@ Proof.
       apply (IH hs f _ mx o Hhs); [lia | exact H].
 Qed.
 
+(* the loop has accepted exactly the hills that are completely there *)
+Lemma count_boundary nv : forall k hs fuel b1 mx o, Forall (hill_ok nv) hs -> (k <= length hs)%nat ->
+  (k < fuel)%nat -> blen (b1 ++ enc_hills (firstn k hs)) < W64 ->
+  count_hills fuel nv (rst (b1 ++ enc_hills (firstn k hs)) mx false false false (blen b1) o) = k.
+Proof.
+  induction k as [|k IH]; intros hs fuel b1 mx o Hok Hkl Hfuel H.
+  - cbn [firstn enc_hills map concat] in *. rewrite app_nil_r in *.
+    destruct fuel as [|f]; [lia|]. cbn [count_hills].
+    pose proof (read_string_at_end b1 mx o H) as He.
+    destruct (read_string (rst b1 mx false false false (blen b1) o)) as [r s'] eqn:E. cbn [fst] in He. now subst r.
+  - destruct hs as [|h hs]; [cbn [length] in Hkl; lia|].
+    inversion Hok as [|? ? Hh Hhs]; subst.
+    destruct (hill_split nv h Hh) as (rest & -> & Hrest).
+    destruct fuel as [|f]; [lia|].
+    cbn [firstn] in *. rewrite enc_hills_cons, enc_all_cons, <- app_assoc in *.
+    cbn [count_hills].
+    rewrite (read_string_mid b1 kw_hill _ mx false false false o H). rewrite bytes_eqb_refl.
+    rewrite (app_assoc b1 (enc (IStr kw_hill))) in H |- *.
+    rewrite (read_fields_mid (hill_fields nv) rest (b1 ++ enc (IStr kw_hill)) _ mx o Hrest H).
+    rewrite (app_assoc (b1 ++ enc (IStr kw_hill)) (enc_all rest)) in H |- *.
+    f_equal. apply (IH hs f _ mx o Hhs); [cbn [length] in Hkl; lia | lia | exact H].
+Qed.
+
 (* ---------------------------------------------------------------- one object *)
 Section BinReader.
   Variable cv_ok : list byte -> bool.
   Variable matches : bbias -> list byte -> option bool.
   Variable params_ok : bbias -> list byte -> bool.
+  Variable expected_hills : bbias -> list byte -> option nat.
   Notation cv_read := (cv_read cv_ok).
-  Notation bias_read := (bias_read matches params_ok).
+  Notation bias_read := (bias_read matches params_ok expected_hills).
+  Notation read_data := (read_data expected_hills).
 
   (* a variable's record "colvar" <data> cut anywhere is an error *)
   Lemma cv_cut data b1 p q mx o : item_ok (IStr data) ->
@@ -203,7 +228,7 @@ Section BinReader.
     matches b conf = Some true -> params_ok b conf = true ->
     blen (b1 ++ enc_header kwd conf ++ b2) < W64 ->
     bias_read b (rst (b1 ++ enc_header kwd conf ++ b2) mx false false false (blen b1) o)
-    = match read_data b (rst (b1 ++ enc_header kwd conf ++ b2) mx false false false
+    = match read_data b conf (rst (b1 ++ enc_header kwd conf ++ b2) mx false false false
                              (blen (b1 ++ enc_header kwd conf)) o) with
       | Some (s3, e) => BOk s3 e
       | None => BErr
@@ -249,13 +274,15 @@ Section BinReader.
     rewrite (read_fields_mid (bb_fields b) its (b1 ++ enc_header kwd conf) p3 mx o Hits H).
     rewrite (app_assoc (b1 ++ enc_header kwd conf) (enc_all its) p3) in H |- *.
     destruct (Nat.eq_dec (bb_kind b) 1) as [Hk1|Hk1].
-    - right. rewrite Hk1.
+    - rewrite Hk1.
       pose proof (hills_cut (bb_nvar b) hs (S (length (((b1 ++ enc_header kwd conf) ++ enc_all its) ++ p3)))
                             ((b1 ++ enc_header kwd conf) ++ enc_all its) p3 q mx o Hhs He3 Hq) as Hcut.
       cbn [ms_buf rst] in *.
       destruct (read_hills _ _ _) as [s3 e] eqn:E. cbn [snd] in Hcut.
-      rewrite Hcut; [now exists s3 | | rewrite !app_length; lia | exact H].
-      intros k Hk3. apply (Hnb k). now rewrite Hk3.
+      rewrite Hcut; [| | rewrite !app_length; lia | exact H].
+      + destruct (expected_hills b conf) as [n|]; [|right; now exists s3].
+        destruct (Nat.eqb _ n); [right; now exists s3 | now left].
+      + intros k Hk3. apply (Hnb k). now rewrite Hk3.
     - exfalso. rewrite (Hkind Hk1) in He3. cbn [enc_hills map concat] in He3.
       symmetry in He3. apply app_eq_nil in He3. destruct He3; congruence.
   Qed.
@@ -265,16 +292,17 @@ Section BinReader.
     bb_kind b = 1%nat -> item_ok (IStr kwd) -> item_ok (IStr conf) ->
     bytes_eqb kwd (bb_kw b) || bytes_eqb kwd (bb_type b) = true ->
     matches b conf = Some true -> params_ok b conf = true ->
+    expected_hills b conf = None ->
     fields_match (bb_fields b) its -> Forall (hill_ok (bb_nvar b)) hs -> (k <= length hs)%nat ->
     blen (b1 ++ enc_header kwd conf ++ enc_all its ++ enc_hills (firstn k hs)) < W64 ->
     exists s, bias_read b (rst (b1 ++ enc_header kwd conf ++ enc_all its ++ enc_hills (firstn k hs)) mx false false false (blen b1) o)
               = BOk s false.
   Proof.
-    intros Hkind Hk Hc Hkw Hm Hpo Hits Hhs Hkl H.
+    intros Hkind Hk Hc Hkw Hm Hpo Hexp Hits Hhs Hkl H.
     rewrite (bias_header_mid b kwd conf b1 _ mx o Hk Hc Hkw Hm Hpo H).
     unfold read_data. rewrite (app_assoc b1 (enc_header kwd conf)) in H |- *.
     rewrite (read_fields_mid (bb_fields b) its (b1 ++ enc_header kwd conf) _ mx o Hits H).
-    rewrite (app_assoc (b1 ++ enc_header kwd conf) (enc_all its)) in H |- *. rewrite Hkind.
+    rewrite (app_assoc (b1 ++ enc_header kwd conf) (enc_all its)) in H |- *. rewrite Hkind, Hexp.
     pose proof (hills_boundary (bb_nvar b) k hs (S (length (((b1 ++ enc_header kwd conf) ++ enc_all its) ++ enc_hills (firstn k hs))))
                                ((b1 ++ enc_header kwd conf) ++ enc_all its) mx o Hhs) as Hb.
     cbn [ms_buf rst] in *.
@@ -288,6 +316,71 @@ Section BinReader.
       cbn [enc]. rewrite app_length, le64_length. lia. }
     specialize (Hl k hs Hhs). rewrite firstn_length_le in Hl by exact Hkl. lia.
   Qed.
+
+  (* which prefixes of a hill list stop exactly between two hills is decidable *)
+  Lemma boundary_dec (hs : list (list item)) (p3 : list byte) :
+    (exists k, (k <= length hs)%nat /\ p3 = enc_hills (firstn k hs)) \/ (forall k, p3 <> enc_hills (firstn k hs)).
+  Proof.
+    assert (Hn : forall n, (exists k, (k <= n)%nat /\ (k <= length hs)%nat /\ p3 = enc_hills (firstn k hs)) \/
+                           (forall k, (k <= n)%nat -> (k <= length hs)%nat -> p3 <> enc_hills (firstn k hs))).
+    { induction n as [|n IH].
+      - destruct (list_eq_dec N.eq_dec p3 (enc_hills (firstn 0 hs))) as [He|Hne].
+        + left. exists 0%nat. repeat split; [lia | lia | exact He].
+        + right. intros k Hk _. replace k with 0%nat by lia. exact Hne.
+      - destruct IH as [(k & Hk & Hkl & He)|Hall]; [left; exists k; repeat split; [lia | exact Hkl | exact He]|].
+        destruct (list_eq_dec N.eq_dec p3 (enc_hills (firstn (S n) hs))) as [He|Hne].
+        + destruct (Nat.le_gt_cases (S n) (length hs)) as [Hle|Hgt].
+          * left. exists (S n). repeat split; [lia | exact Hle | exact He].
+          * left. exists (length hs). repeat split; [lia | lia |]. rewrite He. now rewrite !firstn_all2 by lia.
+        + right. intros k Hk Hkl. destruct (Nat.eq_dec k (S n)) as [->|Hd]; [exact Hne | apply Hall; [lia | exact Hkl]]. }
+    destruct (Hn (length hs)) as [(k & _ & Hkl & He)|Hall]; [left; now exists k|].
+    right. intros k. destruct (Nat.le_gt_cases k (length hs)) as [Hle|Hgt]; [now apply Hall|].
+    rewrite firstn_all2 by lia. rewrite <- (firstn_all hs) at 1. apply Hall; lia.
+  Qed.
+
+  (* with the number of hills announced by the configuration string, EVERY proper prefix of the object is
+     rejected, also one that stops between two hills *)
+  Lemma bias_cut_counted b kwd conf its hs b1 p q mx o :
+    bb_kind b = 1%nat -> item_ok (IStr kwd) -> item_ok (IStr conf) ->
+    bytes_eqb kwd (bb_kw b) || bytes_eqb kwd (bb_type b) = true ->
+    matches b conf = Some true -> params_ok b conf = true ->
+    expected_hills b conf = Some (length hs) ->
+    fields_match (bb_fields b) its -> Forall (hill_ok (bb_nvar b)) hs ->
+    enc_obj kwd conf its hs = p ++ q -> q <> [] -> blen (b1 ++ p) < W64 ->
+    bias_read b (rst (b1 ++ p) mx false false false (blen b1) o) = BErr \/
+    exists s, bias_read b (rst (b1 ++ p) mx false false false (blen b1) o) = BOk s true.
+  Proof.
+    intros Hkind Hk Hc Hkw Hm Hpo Hexp Hits Hhs He Hq H.
+    assert (Hk1 : bb_kind b <> 1%nat -> hs = []) by (intros Hx; congruence).
+    destruct (Nat.le_gt_cases (length (enc_header kwd conf ++ enc_all its)) (length p)) as [Hle|Hgt].
+    2:{ apply (bias_cut b kwd conf its hs b1 p q mx o Hk1 Hk Hc Hkw Hm Hpo Hits Hhs He Hq H).
+        intros k Hk3. rewrite Hk3 in Hgt. rewrite !app_length in Hgt. lia. }
+    unfold enc_obj in He. rewrite app_assoc in He.
+    destruct (prefix_split _ _ _ _ He Hle) as (p3 & Hp & He3).
+    destruct (boundary_dec hs p3) as [(k & Hkl & Hk3)|Hnb].
+    2:{ rewrite <- app_assoc in He. apply (bias_cut b kwd conf its hs b1 p q mx o Hk1 Hk Hc Hkw Hm Hpo Hits Hhs He Hq H).
+        intros k Hk3. apply (Hnb k). rewrite Hp in Hk3. rewrite <- app_assoc in Hk3.
+        apply app_inv_head in Hk3. now apply app_inv_head in Hk3. }
+    (* the data stop between two hills: k of them are there, fewer than announced *)
+    assert (Hlt : (k < length hs)%nat).
+    { destruct (Nat.eq_dec k (length hs)) as [->|Hd]; [|lia]. exfalso. rewrite firstn_all in Hk3. subst p3.
+      apply (f_equal (@length byte)) in He3. rewrite app_length in He3. destruct q; [congruence | cbn [length] in He3; lia]. }
+    left. subst p p3. rewrite <- app_assoc in H |- *.
+    rewrite (bias_header_mid b kwd conf b1 _ mx o Hk Hc Hkw Hm Hpo H).
+    unfold BinReadModel.read_data. rewrite (app_assoc b1 (enc_header kwd conf)) in H |- *.
+    rewrite (read_fields_mid (bb_fields b) its (b1 ++ enc_header kwd conf) _ mx o Hits H).
+    rewrite (app_assoc (b1 ++ enc_header kwd conf) (enc_all its)) in H |- *. rewrite Hkind, Hexp.
+    cbn [ms_buf rst].
+    rewrite (count_boundary (bb_nvar b) k hs _ ((b1 ++ enc_header kwd conf) ++ enc_all its) mx o Hhs Hkl); [| | exact H].
+    - replace (Nat.eqb k (length hs)) with false by (symmetry; apply Nat.eqb_neq; lia). reflexivity.
+    - rewrite !app_length.
+      assert (Hl : forall j (l : list (list item)), Forall (hill_ok (bb_nvar b)) l -> (length (firstn j l) <= length (enc_hills (firstn j l)))%nat).
+      { induction j as [|j IHj]; intros [|h l] Hl; cbn [firstn length]; try lia.
+        inversion Hl as [|? ? Hh Hl']; subst. rewrite enc_hills_cons, app_length.
+        destruct (hill_split _ h Hh) as (rest & -> & _). specialize (IHj l Hl'). rewrite enc_all_cons, app_length.
+        cbn [enc]. rewrite app_length, le64_length. lia. }
+      specialize (Hl k hs Hhs). rewrite firstn_length_le in Hl by exact Hkl. lia.
+  Qed.
 End BinReader.
 
 (* ================================================================ whole files *)
@@ -295,10 +388,12 @@ Section WholeFile.
   Variable cv_ok : list byte -> bool.
   Variable matches : bbias -> list byte -> option bool.
   Variable params_ok : bbias -> list byte -> bool.
+  Variable expected_hills : bbias -> list byte -> option nat.
   Notation cv_read := (cv_read cv_ok).
-  Notation bias_read := (bias_read matches params_ok).
+  Notation bias_read := (bias_read matches params_ok expected_hills).
+  Notation read_data := (read_data expected_hills).
   Notation read_colvars := (read_colvars cv_ok).
-  Notation read_biases := (read_biases matches params_ok).
+  Notation read_biases := (read_biases matches params_ok expected_hills).
 
   Definition cv_enc (data : list byte) : list byte := enc_all [IStr kw_colvar; IStr data].
   Definition cv_data_ok (data : list byte) : Prop := item_ok (IStr data) /\ cv_ok data = true.
@@ -372,7 +467,7 @@ Section WholeFile.
   Proof.
     intros (Hk & Hc & Hkw & Hm & Hp & Hits & _) Hpl H. rewrite (plain_benc x Hpl) in *.
     rewrite <- (app_assoc (enc_header (o_kwd x) (o_conf x))) in *.
-    rewrite (bias_header_mid matches params_ok (o_b x) _ _ b1 _ mx o Hk Hc Hkw Hm Hp H).
+    rewrite (bias_header_mid matches params_ok expected_hills (o_b x) _ _ b1 _ mx o Hk Hc Hkw Hm Hp H).
     unfold read_data. rewrite (app_assoc b1 (enc_header (o_kwd x) (o_conf x))) in *.
     rewrite (read_fields_mid _ _ (b1 ++ enc_header (o_kwd x) (o_conf x)) b2 mx o Hits H).
     destruct Hpl as [Hkind _]. destruct (bb_kind (o_b x)) as [|[|k]]; try congruence; now rewrite <- !app_assoc.
@@ -419,7 +514,7 @@ Section WholeFile.
         assert (Hnb : forall k, p <> enc_header (o_kwd x) (o_conf x) ++ enc_all (o_its x) ++ enc_hills (firstn k (o_hs x))).
         { intros k Hk3. rewrite Hnil in *. rewrite firstn_nil in Hk3. unfold enc_obj in Hp'. rewrite <- Hk3 in Hp'.
           apply (f_equal (@length byte)) in Hp'. rewrite app_length in Hp'. destruct m; [congruence | cbn [length] in Hp'; lia]. }
-        destruct (bias_cut matches params_ok (o_b x) _ _ _ _ b1 p m mx o (fun _ => Hnil) Hk Hc Hkw Hm' Hpo Hits Hhs Hp' Hmn H Hnb)
+        destruct (bias_cut matches params_ok expected_hills (o_b x) _ _ _ _ b1 p m mx o (fun _ => Hnil) Hk Hc Hkw Hm' Hpo Hits Hhs Hp' Hmn H Hnb)
           as [Hr | (s & Hr)]; rewrite Hr; [reflexivity | rewrite orb_true_r; apply read_biases_sticky].
   Qed.
 
@@ -444,12 +539,15 @@ Section WholeFile.
      before its first hill, or after its last one when ... nothing is missing) *)
   Lemma binary_state_cut gconf datas xs last p q :
     item_ok (IStr gconf) -> Forall cv_data_ok datas -> Forall obj_ok xs -> Forall plain xs ->
-    match last with Some x => obj_ok x /\ bb_kind (o_b x) = 1%nat | None => True end ->
+    match last with
+    | Some x => obj_ok x /\ bb_kind (o_b x) = 1%nat /\
+                match expected_hills (o_b x) (o_conf x) with Some n => n = length (o_hs x) | None => True end
+    | None => True end ->
     concat (map cv_enc datas) ++ concat (map benc xs) ++ match last with Some x => benc x | None => [] end = p ++ q ->
     q <> [] -> blen (magic ++ genc gconf ++ p) < W64 ->
-    (forall x k, last = Some x ->
+    (forall x k, last = Some x -> expected_hills (o_b x) (o_conf x) = None ->
        p <> concat (map cv_enc datas) ++ concat (map benc xs) ++ enc_header (o_kwd x) (o_conf x) ++ enc_all (o_its x) ++ enc_hills (firstn k (o_hs x))) ->
-    load_bin cv_ok matches params_ok (length datas)
+    load_bin cv_ok matches params_ok expected_hills (length datas)
              (map o_b xs ++ match last with Some x => [o_b x] | None => [] end) (magic ++ genc gconf ++ p) = true.
   Proof.
     intros Hg Hcv Hxs Hpl Hlast He Hq H Hnb. unfold load_bin.
@@ -476,11 +574,15 @@ Section WholeFile.
     rewrite (plain_objs_mid xs _ (b1 ++ (concat (map cv_enc datas))) p3 mx false false Hxs Hpl H).
     rewrite (app_assoc (b1 ++ (concat (map cv_enc datas))) (concat (map benc xs)) p3) in *.
     destruct last as [x|].
-    - destruct Hlast as [(Hk & Hc & Hkw & Hm & Hpo & Hits & Hhs) Hkind]. unfold benc in He3.
+    - destruct Hlast as ((Hk & Hc & Hkw & Hm & Hpo & Hits & Hhs) & Hkind & Hexp). unfold benc in He3.
       cbn [BinReadModel.read_biases].
+      destruct (expected_hills (o_b x) (o_conf x)) as [nh|] eqn:Eexp.
+      { subst nh.
+        destruct (bias_cut_counted matches params_ok expected_hills (o_b x) _ _ _ _ ((b1 ++ (concat (map cv_enc datas))) ++ (concat (map benc xs))) p3 q mx false Hkind Hk Hc Hkw Hm Hpo Eexp Hits Hhs He3 Hq H)
+          as [Hr | (s & Hr)]; rewrite Hr; reflexivity. }
       assert (Hnb3 : forall k, p3 <> enc_header (o_kwd x) (o_conf x) ++ enc_all (o_its x) ++ enc_hills (firstn k (o_hs x))).
-      { intros k Hk3. apply (Hnb x k eq_refl). now rewrite Hk3. }
-      destruct (bias_cut matches params_ok (o_b x) _ _ _ _ ((b1 ++ (concat (map cv_enc datas))) ++ (concat (map benc xs))) p3 q mx false (fun Hx => False_ind _ (Hx Hkind)) Hk Hc Hkw Hm Hpo Hits Hhs He3 Hq H Hnb3)
+      { intros k Hk3. apply (Hnb x k eq_refl Eexp). now rewrite Hk3. }
+      destruct (bias_cut matches params_ok expected_hills (o_b x) _ _ _ _ ((b1 ++ (concat (map cv_enc datas))) ++ (concat (map benc xs))) p3 q mx false (fun Hx => False_ind _ (Hx Hkind)) Hk Hc Hkw Hm Hpo Hits Hhs He3 Hq H Hnb3)
         as [Hr | (s & Hr)]; rewrite Hr; [reflexivity | reflexivity].
     - symmetry in He3. apply app_eq_nil in He3. destruct He3; congruence.
   Qed.
